@@ -326,6 +326,9 @@ func (m *Monitors) Observe(idx int, r *Result) {
 		}
 	}
 
+	if r.Lost != "" {
+		m.fire("C01", "publish-lost", "%s", r.Lost)
+	}
 	switch op.K {
 	case "create_sub":
 		if ok {
